@@ -543,6 +543,18 @@ def oracle_identities(case):
         if not relv(np.diag(cov), d.var.data, 1e-8, 1e-11):
             fails.append({'what': f'{nm}: diagonal of the SFS covariance matrix is not the SFS variance', 'reads': order,
                           'diag': np.diag(cov).tolist(), 'var': d.var.data.tolist()})
+    # second order: the covariance matrix of the folded spectrum is the 2-SFS fold (SFS2.fold: bins i and n - i added on both axes) of the
+    # covariance matrix of the unfolded one (covariance is bilinear), and folding / symmetrising keep what they should
+    cu, cf = c.sfs.cov, c.fsfs.cov
+    n += 1
+    if not relv(cu.fold().data, cf.data, 1e-7, 1e-10):
+        fails.append({'what': 'covariance matrix of the folded spectrum is not SFS2.fold of the covariance matrix of the unfolded spectrum',
+                      'fold_of_cov': cu.fold().data.tolist(), 'fsfs_cov': cf.data.tolist()})
+    n += 1
+    if not (rel(float(np.sum(cu.fold().data)), float(np.sum(cu.data)), 1e-9, 1e-10) and relv(cu.symmetrize().data, cu.data, 1e-9, 1e-12)
+            and relv(cf.fold().data, cf.data, 1e-12, 1e-14) and bool(cf.is_folded())):
+        fails.append({'what': 'SFS2.fold does not keep the total / is not idempotent on a folded matrix, or symmetrize alters a symmetric matrix',
+                      'sum_fold': float(np.sum(cu.fold().data)), 'sum': float(np.sum(cu.data))})
     # the size-weighted identity for orders 1 and 2 through ONE composite reward: the library has no scalar weights, so bin i is listed i
     # times in a SumReward (repeated components count with their multiplicity); sum_i i xi_i = n H, so its raw moments are n^k E[H^k]
     if 3 <= nn <= 6:
